@@ -46,8 +46,6 @@ Hypothesis LF : loc_facts s t0.
 Hypothesis TF : tgt_facts s t0.
 Hypothesis Hnp : forall f, present_in (mb_fp t0) f = false.
 Hypothesis Hf0 : mb_fields t0 = [].
-Hypothesis HG1 : forall tr, In tr (mb_fp s) -> t_present tr = true -> t_group tr = true ->
-                 exists els, map_find (t_fnum tr) (mb_groups s) = Some els.
 Hypothesis HG2 : forall f els, In (f, els) (mb_groups s) -> els = [] \/ (present_in (mb_fp s) f = true /\ group_in (mb_fp s) f = true).
 
 (* the source without its groups: what copy_legal is run on *)
@@ -74,7 +72,8 @@ Proof. intros f els Hin. destruct s'_acc as (_ & _ & _ & E4 & _). rewrite E4 in 
 Lemma HE' : forall f els, In (f, els) (mb_groups s') -> Forall elem_post els.
 Proof. intros f els Hin. destruct s'_acc as (_ & _ & _ & E4 & _). rewrite E4 in Hin. destruct Hin. Qed.
 
-Definition mg (done : list trait) (f : N) : bool := in_done done f && sel s' t0 f && group_in (mb_fp s) f.
+Definition has_grp (f : N) : bool := is_some (map_find f (mb_groups s)).
+Definition mg (done : list trait) (f : N) : bool := in_done done f && sel s' t0 f && group_in (mb_fp s) f && has_grp f.
 Definition mf (done : list trait) (f : N) : bool := in_done done f && sel s' t0 f.
 
 Definition Sim (cst : N * mbase) (mst : mstate) : Prop :=
@@ -116,7 +115,7 @@ Proof.
 Qed.
 
 Lemma mg_app done pp g : in_done done (t_fnum pp) = false ->
-  mg (done ++ [pp]) g = if g =? t_fnum pp then sel s' t0 g && group_in (mb_fp s) g else mg done g.
+  mg (done ++ [pp]) g = if g =? t_fnum pp then sel s' t0 g && group_in (mb_fp s) g && has_grp g else mg done g.
 Proof.
   intros Hnd. unfold mg. rewrite in_done_app. destruct (g =? t_fnum pp) eqn:E.
   - apply N.eqb_eq in E. subst g. rewrite N.eqb_refl, orb_true_r. reflexivity.
@@ -174,26 +173,29 @@ Proof.
   assert (Hmg : exists st1, move_group pp mst = Ok st1 /\ ms_moved st1 = ms_moved mst /\
                 core (ms_to st1) = core (ms_to mst) /\ ms_fields st1 = ms_fields mst /\
                 (forall g, map_find g (mb_groups (ms_to st1)) =
-                           if (g =? f) && t_group pp then map_find f (mb_groups s) else map_find g (mb_groups (ms_to mst))) /\
+                           if (g =? f) && t_group pp && has_grp f then map_find f (mb_groups s) else map_find g (mb_groups (ms_to mst))) /\
                 (forall g, map_find g (ms_groups st1) =
-                           if (g =? f) && t_group pp then option_map (fun _ => None) (map_find f (mb_groups s))
+                           if (g =? f) && t_group pp && has_grp f then option_map (fun _ => None) (map_find f (mb_groups s))
                            else map_find g (ms_groups mst)) /\
                 map fst (ms_groups st1) = map fst (ms_groups mst)).
   { unfold move_group. fold f. destruct (t_group pp) eqn:Egp.
     2:{ exists mst. repeat split; try reflexivity; intros g; rewrite andb_false_r; reflexivity. }
-    destruct (HG1 pp Hin Hpp Egp) as [els Hels]. fold f in Hels.
-    rewrite M2. unfold mg. rewrite Hnd. cbn [andb]. rewrite Hels. cbn [option_map].
+    unfold has_grp. destruct (map_find f (mb_groups s)) as [els|] eqn:Hels.
+    2:{ (* no group object in the source: nothing is handed over *)
+      rewrite M2. unfold mg. rewrite Hnd. cbn [andb]. rewrite Hels. cbn [option_map].
+      exists mst. repeat split; try reflexivity; intros g; cbn [is_some]; rewrite andb_false_r; reflexivity. }
+    rewrite M2. unfold mg. rewrite Hnd. cbn [andb]. rewrite Hels. cbn [option_map is_some].
     eexists. split; [reflexivity|]. cbn [ms_moved ms_to ms_fields ms_groups].
     split; [reflexivity|]. split.
     { destruct (map_find f (mb_groups (ms_to mst))); destruct (ms_to mst); reflexivity. }
     split; [reflexivity|]. split; [|split].
-    - intros g. rewrite andb_true_r.
+    - intros g. rewrite !andb_true_r.
       destruct (map_find f (mb_groups (ms_to mst))) as [x|] eqn:Ex.
       + destruct (with_groups_acc (ms_to mst) (map_set f els (mb_groups (ms_to mst)))) as (_ & _ & _ & _ & _ & ->).
         rewrite map_find_map_set, Ex. destruct (g =? f); reflexivity.
       + destruct (with_groups_acc (ms_to mst) (map_insert f els (mb_groups (ms_to mst)))) as (_ & _ & _ & _ & _ & ->).
         rewrite map_find_map_insert by exact Ex. destruct (g =? f); reflexivity.
-    - intros g. rewrite andb_true_r, map_find_map_set, M2. unfold mg. rewrite Hnd. cbn [andb]. rewrite Hels.
+    - intros g. rewrite !andb_true_r, map_find_map_set, M2. unfold mg. rewrite Hnd. cbn [andb]. rewrite Hels.
       destruct (g =? f); reflexivity.
     - apply map_set_keys. }
   destruct Hmg as (st1 & Hm1 & G1 & G2 & G3 & G4 & G5 & G6).
@@ -207,11 +209,11 @@ Proof.
   assert (Hgi : group_in (mb_fp s) f = t_group pp) by (unfold group_in; rewrite Hfind; reflexivity).
   repeat split.
   - intros g. rewrite G4, mg_app by exact Hnd. fold f. destruct (g =? f) eqn:E.
-    + apply N.eqb_eq in E. subst g. rewrite Esel, Hgi. cbn [andb]. destruct (t_group pp); [reflexivity|].
+    + apply N.eqb_eq in E. subst g. rewrite Esel, Hgi. cbn [andb]. destruct (t_group pp && has_grp f); [reflexivity|].
       rewrite M1. unfold mg. rewrite Hnd. reflexivity.
     + cbn [andb]. apply M1.
   - intros g. rewrite G5, mg_app by exact Hnd. fold f. destruct (g =? f) eqn:E.
-    + apply N.eqb_eq in E. subst g. rewrite Esel, Hgi. cbn [andb]. destruct (t_group pp); [reflexivity|].
+    + apply N.eqb_eq in E. subst g. rewrite Esel, Hgi. cbn [andb]. destruct (t_group pp && has_grp f); [reflexivity|].
       rewrite M2. unfold mg. rewrite Hnd. reflexivity.
     + cbn [andb]. apply M2.
   - rewrite G6. exact M3.
@@ -280,18 +282,14 @@ Theorem c11_move_legal_lemma : forall s t0, move_ok s t0 = true ->
     (forall f els, map_find f (mb_groups s) = Some els ->
                    map_find f (hk_groups k) = Some (if group_owned (mb_fp s) f then None else Some els)).
 Proof.
-  intros s t0 H. unfold move_ok in H. rewrite !andb_true_iff in H. destruct H as [[[Hl Ht] Hg1] Hg2].
+  intros s t0 H. unfold move_ok in H. rewrite !andb_true_iff in H. destruct H as [[Hl Ht] Hg2].
   pose proof (local_ok_facts s t0 Hl) as LF. pose proof (target_ok_tgt s t0 Ht) as TF.
-  destruct (target_ok_facts t0 Ht) as (Hnp & Hf0 & Hp0 & Hgn & Hu0).
-  assert (HG1 : forall tr, In tr (mb_fp s) -> t_present tr = true -> t_group tr = true ->
-                exists els, map_find (t_fnum tr) (mb_groups s) = Some els).
-  { intros tr Hin Hp Hg. rewrite forallb_forall in Hg1. specialize (Hg1 tr Hin). rewrite Hp, Hg in Hg1. cbn in Hg1.
-    destruct (map_find (t_fnum tr) (mb_groups s)) as [els|]; [exists els; reflexivity|discriminate]. }
+  destruct (target_ok_facts t0 Ht) as (Hnp & Hf0 & Hp0 & Hgn & Hgs0 & Hu0).
   assert (HG2 : forall f els, In (f, els) (mb_groups s) -> els = [] \/ (present_in (mb_fp s) f = true /\ group_in (mb_fp s) f = true)).
   { intros f els Hin. rewrite forallb_forall in Hg2. specialize (Hg2 _ Hin). cbn [fst snd] in Hg2.
     apply orb_true_iff in Hg2. destruct Hg2 as [Hn|Ho]; [left; apply is_nil_eq; exact Hn|right].
     unfold group_owned in Ho. apply andb_true_iff in Ho. exact Ho. }
-  destruct (s'_acc s t0 LF TF HG1 HG2) as (E1 & E2 & E3 & E4 & E5).
+  destruct (s'_acc s t0 LF TF HG2) as (E1 & E2 & E3 & E4 & E5).
   set (mst0 := mkMS 0 t0 (map (fun e => (fst e, Some (snd e))) (mb_fields s)) (map (fun e => (fst e, Some (snd e))) (mb_groups s))).
   assert (HM0 : MI s t0 [] mst0).
   { unfold MI, mg, mf, in_done. cbn [existsb andb ms_to ms_groups ms_fields mst0]. repeat split.
@@ -300,10 +298,10 @@ Proof.
     - intros f. apply map_find_map_some.
     - rewrite map_map. reflexivity. }
   assert (HS0 : Sim (0, t0) mst0) by (split; reflexivity).
-  destruct (sim_fold s t0 LF TF HG1 HG2 (mb_fp s) [] (0, t0) mst0 eq_refl (inv_init (s' s) t0 (TF' s t0 LF TF HG1 HG2)) HS0 HM0)
+  destruct (sim_fold s t0 LF TF HG2 (mb_fp s) [] (0, t0) mst0 eq_refl (inv_init (s' s) t0 (TF' s t0 LF TF HG2)) HS0 HM0)
     as ([n tc] & mst' & Hfold & HI & [Hs1 Hs2] & (M1 & M2 & M3 & M4 & M5)).
   cbn [fst snd] in Hs1, Hs2.
-  pose proof (LF' s t0 LF TF HG1 HG2) as LFp. pose proof (TF' s t0 LF TF HG1 HG2) as TFp. pose proof (GF' s t0 LF TF HG1 HG2) as GFp.
+  pose proof (LF' s t0 LF TF HG2) as LFp. pose proof (TF' s t0 LF TF HG2) as TFp. pose proof (GF' s t0 LF TF HG2) as GFp.
   (* the copy twin: fields, table, positions *)
   assert (HI2 : Inv (s' s) t0 (mb_fp (s' s)) (n, tc)) by (rewrite E1; exact HI).
   pose proof (empty_fields (s' s) t0 LFp Hnp Hf0 n tc HI2) as Hfe. rewrite E2 in Hfe.
@@ -315,8 +313,8 @@ Proof.
   unfold core in Hs2. injection Hs2 as C1 C2 C3 C4 C5.
   rewrite C1 in Hfp. rewrite C3 in Hfe. rewrite C4 in Hpos. rewrite C5 in Hunk. clear C1 C2 C3 C4 C5.
   (* which groups moved *)
-  assert (Hmg : forall f, mg s t0 (mb_fp s) f = group_owned (mb_fp s) f).
-  { intros f. unfold mg, group_owned, sel. rewrite E1, Hnp. cbn [negb]. rewrite andb_true_r.
+  assert (Hmg : forall f, mg s t0 (mb_fp s) f = group_owned (mb_fp s) f && is_some (map_find f (mb_groups s))).
+  { intros f. unfold mg, has_grp, group_owned, sel. rewrite E1, Hnp. cbn [negb]. rewrite andb_true_r. f_equal.
     destruct (present_in (mb_fp s) f) eqn:Ep; [|rewrite andb_false_r; reflexivity].
     rewrite andb_true_r. f_equal. unfold present_in in Ep.
     destruct (find_trait (mb_fp s) f) as [tr|] eqn:Et; [|discriminate]. destruct (find_trait_In _ _ _ Et) as [Hi Hf].
@@ -343,11 +341,14 @@ Proof.
     apply flat_map_ext_in. intros [f v] Hin. unfold field_toks. cbn [fst snd]. f_equal.
     specialize (M1 f). rewrite Hmg in M1. cbn [mb_groups] in M1. rewrite M1.
     specialize (Hfpres _ Hin). cbn [fst] in Hfpres. unfold group_owned. rewrite Hfpres. cbn [andb].
-    destruct (group_in fp f) eqn:Eg; [reflexivity|].
-    assert (Hs0 : forall x l, map_find f groups <> Some (x :: l)).
-    { intros x l Hm. destruct (HG2 _ _ (map_find_In _ _ _ Hm)) as [Hn|[_ Hn]]; [discriminate|congruence]. }
     assert (Ht0 : forall x l, map_find f (mb_groups t0) <> Some (x :: l)).
     { intros x l Hm. pose proof (Hgn _ (map_find_In _ _ _ Hm)) as Hn. discriminate. }
+    destruct (group_in fp f) eqn:Eg.
+    { destruct (map_find f groups) as [els|]; cbn [is_some andb]; [reflexivity|].
+      destruct (map_find f (mb_groups t0)) as [[|y l']|]; try reflexivity. exfalso; eapply Ht0; reflexivity. }
+    cbn [andb].
+    assert (Hs0 : forall x l, map_find f groups <> Some (x :: l)).
+    { intros x l Hm. destruct (HG2 _ _ (map_find_In _ _ _ Hm)) as [Hn|[_ Hn]]; [discriminate|congruence]. }
     destruct (map_find f groups) as [[|x l]|]; destruct (map_find f (mb_groups t0)) as [[|y l']|];
       try reflexivity; try (exfalso; eapply Hs0; reflexivity); try (exfalso; eapply Ht0; reflexivity).
   - (* encoding *)
@@ -363,7 +364,7 @@ Proof.
     + intros f r Hin Hgi _ Hm. rewrite map_find_genc in *. specialize (M1 f). rewrite Hmg in M1. cbn [mb_groups] in M1.
       rewrite M1. unfold group_owned. rewrite Hgi, andb_true_r.
       apply in_map_iff in Hin. destruct Hin as [e [He1 He2]]. destruct (Hent e He2) as [Hp _]. rewrite He1 in Hp.
-      rewrite Hp. exact Hm.
+      rewrite Hp. destruct (map_find f groups); [exact Hm|discriminate].
     + exact E.
   - reflexivity.
   - exact M5.
@@ -372,5 +373,6 @@ Proof.
     pose proof (lf_fpres _ _ LF _ Hin) as Hp. cbn [fst] in Hp. rewrite (Hmf _ Hp).
     rewrite (In_map_find _ _ _ (strictN_NoDup _ (lf_fstrict _ _ LF)) Hin). reflexivity.
   - exact M3.
-  - intros f els Hm. cbn [hk_groups]. rewrite M2, Hmg, Hm. destruct (group_owned (mb_fp s) f); reflexivity.
+  - intros f els Hm. cbn [hk_groups]. rewrite M2, Hmg, Hm. cbn [is_some]. rewrite andb_true_r.
+    destruct (group_owned (mb_fp s) f); reflexivity.
 Qed.
